@@ -73,8 +73,8 @@ func (l *c41Local) write(leaf, root chunks.Chunk, last hash.Hash) (bool, error) 
 	return l.st.Commit(verifJCtx, root.Hash(), last)
 }
 
-func (l *c41Local) prune() error                      { return l.st.PruneTableFiles(verifJCtx) }
-func (l *c41Local) close() error                      { return l.st.Close() }
+func (l *c41Local) prune() error                     { return l.st.PruneTableFiles(verifJCtx) }
+func (l *c41Local) close() error                     { return l.st.Close() }
 func (l *c41Local) mode() chunks.ExclusiveAccessMode { return l.st.AccessMode() }
 
 // c41Remote drives a worker process (see worker_test.go).
@@ -191,7 +191,7 @@ type c41State struct {
 	slots    [3]*c41Slot
 	raw      *fslock.Lock
 	curRoot  hash.Hash
-	time     int                 // number of commits made by this schedule
+	time     int                  // number of commits made by this schedule
 	chunkSum map[hash.Hash]string // every chunk that may exist -> content sum
 	since    map[hash.Hash]int    // durable since model time (0 = from the seed image); -1 = un-acked in the seed
 	addrs    []hash.Hash
